@@ -449,6 +449,13 @@ pub fn setup(rng: &mut Rng, columns: u32, lines: u32, prof: &Profile) -> Vec<Op>
             ops.push(Op::Api(Call::CursorPosition(Some(y), Some(c))));
             ops.push(Op::Api(Call::Draw(marker(c - 1, y - 1, c).to_string())));
         }
+        // ... and sometimes the cursor is then taken to another row by a vertical move, which keeps
+        // the column: the pending-wrap column on a row that the last draw did not touch (possibly
+        // one that was never written at all)
+        if rng.below(4) == 0 {
+            let n = Some(rng.range(1, l));
+            ops.push(Op::Api(if rng.bool() { Call::CursorUp(n) } else { Call::CursorDown(n) }));
+        }
     } else {
         let x = match rng.below(5) {
             0 => 1,
